@@ -98,26 +98,26 @@ def _mk_statement_method(stream_cls: str, method: str, arity: int) -> Any:
         params = {"self": OBJ(f"{SS}:{stream_cls}"), "terms": TUP(*[ADTS("gterm")] * arity)}
         result = OPT(MSG("RdfStreamFrame"))
         linear = True
-        shards = 6 if arity == 3 else 3      # one worker per variant
+        shards = 6      # one worker per variant
         modifies = ["self.encoder.names", "self.encoder.prefixes", "self.encoder.datatypes", "self.repeated_terms", "self.flow.data"]
         # one verification per kind of flow the stream may hold: bounded (emits on size) and the others (never do)
         variants = [{"self": OBJ(f"{SS}:{stream_cls}")}, {"self": OBJ(f"{SS}:{stream_cls}@manual")},
                     {"self": OBJ(f"{SS}:{stream_cls}@graphs")}] + \
                    ([{"self": OBJ(f"{SS}:{stream_cls}@r")}, {"self": OBJ(f"{SS}:{stream_cls}@rmanual")},
-                     {"self": OBJ(f"{SS}:{stream_cls}@rgraphs")}] if arity == 3 else [])     # rdflib encoder: triples only so far
+                     {"self": OBJ(f"{SS}:{stream_cls}@rgraphs")}])     # the same with the rdflib integration's encoder
 
         def requires(e):
             from .encode import encoder_universe
             return And(wf_te(e.self.encoder), encoder_universe(e.self.encoder, list(e.terms.items)))
 
         def raises(e):
-            from .encode import first_exc, graph_exc, rep_equal
+            from .encode import first_exc, graph_exc_of, rep_equal
             ts = list(e.terms.items)
             rep = e.self.repeated_terms.items
             dz = e.self.encoder.datatypes.lookup.max_size == 0
             x = first_exc(rep[:3], ts[:3], dz)
             if arity == 4:
-                gx = z3.If(rep_equal(rep[3], ts[3]), 0, graph_exc(ts[3], dz))
+                gx = z3.If(rep_equal(rep[3], ts[3]), 0, graph_exc_of(e.self.encoder, ts[3], dz))
                 x = z3.If(x != 0, x, gx)
             return {"NotImplementedError": x == 1, "JellyConformanceError": x == 2}
 
